@@ -3,6 +3,7 @@ import Bpmn.Props.C15Current
 open Bpmn.Props.C15
 #print axioms dispatch_unambiguous
 #print axioms attrs_roundtrip
+#print axioms marshal_pure
 #print axioms undeclared_type_attr_is_informal
 #print axioms declared_type_attr_is_formal
 #print axioms C15_counterexample_xsi
